@@ -1,4 +1,5 @@
 import XpmVerif.Proofs.SerialValues
+import XpmVerif.Proofs.SerialGen2
 import XpmVerif.Generated.SerialFlags
 /-! C12 — saving and loading a configuration graph loses nothing.
 
@@ -80,6 +81,40 @@ theorem state_dict_round_trip (fl : Flags) (lib : List Cls) (sg : SGraph) (v : V
   obtain ⟨_, hiff, _, _⟩ := serialOrder_spec sg.g (cfgRefs v) hwf hr
   exact ⟨L, hl, fun n h => hn n ((hiff n).2 h)⟩
 
+/-- **Several generations**: writing a graph that was itself loaded (`regraph`: the loaded objects
+    seen as a configuration graph — they are `sealed` and carry the `loaded` flag in the real code; the
+    model's writer reads neither, i.e. *nothing of a loaded configuration may be left out*, in
+    particular not its producing-task link) and loading it again succeeds and gives, at every id that
+    is still needed, the same object as the first generation: a second generation loses nothing more. -/
+theorem second_generation (fl : Flags) (lib : List Cls) (sg : SGraph) (roots : List Nat)
+    (hwf : WF sg.g) (hr : ∀ r ∈ roots, r < sg.g.size)
+    (hok : ∀ n, Needed sg.g roots n → NodeOk lib sg n) :
+    ∃ L1 defs2 L2, reloadTwice fl lib sg roots = .ok (L1, defs2, L2) ∧
+      (∀ n, Needed sg.g roots n →
+        lookupObj n L1 = some { cname := sg.cls n, node := reloadNode fl (sg.g.node n) }) ∧
+      (∀ n, n ∈ L2.map (·.1) → Needed sg.g roots n) ∧
+      (∀ n, Needed (regraph L1 sg.g.size).g roots n →
+        lookupObj n L2 = some { cname := sg.cls n, node := reloadNode fl (sg.g.node n) }) :=
+  reloadTwice_spec fl lib sg roots hwf hr hok
+
+/-- … and under the hypotheses of `load_serialize_exact` the second generation is exact as well:
+    the objects loaded from the re-written file are exactly the needed configurations of the
+    *original* graph, each equal to the original up to `sealed` (same task links, pre-tasks, init
+    tasks, meta flags), and the identifier recomputed after two generations is the original one. -/
+theorem second_generation_exact {D : Type} (hc : HC D) (fl : Flags) (lib : List Cls) (sg : SGraph) (root : Nat)
+    (hwf : WF sg.g) (hr : root < sg.g.size)
+    (hok : ∀ n, Needed sg.g [root] n → NodeOk lib sg n)
+    (hm : (fl.metaWriteAll = true ∧ fl.metaReadAll = true) ∨ ∀ n, Needed sg.g [root] n → (sg.g.node n).mflag ≠ some false)
+    (hi : fl.initRestored = true ∨ ∀ n, Needed sg.g [root] n → (sg.g.node n).initTasks = []) :
+    (∃ L1 defs2 L2, reloadTwice fl lib sg [root] = .ok (L1, defs2, L2) ∧
+      (∀ n, n ∈ L2.map (·.1) ↔ Needed sg.g [root] n) ∧
+      ∀ n, Needed sg.g [root] n →
+        ∃ o, lookupObj n L2 = some o ∧ o.cname = sg.cls n ∧ NodeSame (sg.g.node n) o.node ∧ o.node.sealed = true) ∧
+    (∃ L1 defs2 L2, reloadTwice fl lib sg [root] = .ok (L1, defs2, L2) ∧
+      fullId hc (toGraph L2 sg.g.size) root = fullId hc sg.g root) := by
+  have hroots : ∀ r ∈ [root], r < sg.g.size := by intro r h; simp at h; subst h; exact hr
+  exact ⟨reloadTwice_exact fl lib sg [root] hwf hroots hok hm hi, reloadTwice_fullId hc fl lib sg root hwf hr hok hm hi⟩
+
 /-- **Every value survives the JSON encoding** (all type constructors, any nesting): decoding the
     encoding of a value gives the value back, data paths included. -/
 theorem value_round_trip (ids : List Nat) (isData : Bool) (v : Val) (hk : noTypeKey v = true)
@@ -149,6 +184,17 @@ theorem dict_type_key_witness :
     (match load newFlags wlib (serialize newFlags wlib (wg none [] (.dict [kType] [.str [122, 122]])) [0]) with
      | .error .unhandledType => true | _ => false) = true := by
   decide
+
+/-- non-vacuity of the second generation: a task output (node 1 produced by node 0 … here the link
+    1 → 2) keeps its task link through two generations. -/
+example : (match reloadTwice newFlags wlib
+      { g := { nodes := [ { typeId := [116], args := [{ name := [109], ignored := true, required := false, value := .ref 1 },
+                                                     { name := [100], required := false, default := some (.dict [] []), value := .dict [] [] }] },
+                          { typeId := [115], task := some 2, args := [{ name := [120], value := .int 5 }] },
+                          { typeId := [108], args := [{ name := [118], value := .int 3 }] } ] },
+        cname := [[84], [83], [76]] } [0] with
+    | .ok (_, defs2, l2) => (defs2.map (·.task), l2.map (fun p => (p.1, p.2.node.task)))
+    | .error _ => ([], [])) = ([none, some 2, none], [(2, none), (1, some 2), (0, none)]) := by decide
 
 /-- non-vacuity: the witness graph satisfies every hypothesis of the theorems above (with the repaired
     flags, or with the current ones when no meta flag is False and no init task is attached), and the
